@@ -46,7 +46,7 @@ impl Check for C06 {
     fn runs(&self, tier: Tier) -> u64 {
         match tier {
             Tier::Quick => 300,
-            Tier::Thorough => 6000,
+            Tier::Thorough => 1500,
         }
     }
     fn generate(&self, rng: &mut Prng, tier: Tier, idx: u64) -> Value {
